@@ -242,9 +242,14 @@ class Gen(object):
         self.S = S
         self.vcp = var_const_preds
         self.bool_atoms = bool_atoms
+        self.tterm = 0.0          # probability of a (past) temporal operator inside an arithmetic term: (x - prev x) >= 1
+        self.tterm_ops = ["prev", "sprev", "once", "hist", "onceT", "histT"]
 
     def term(self, d):
         r = self.r
+        if self.tterm and r.random() < self.tterm:
+            o_ = r.choice(self.tterm_ops)
+            return un(o_, self.term(d - 1), *r.choice(self.ivs)) if o_ in UN_TIMED else un(o_, self.term(d - 1))
         if d <= 0 or not self.arith or r.random() < 0.45:
             if r.random() < 0.65:
                 return var(r.choice(self.vars))
